@@ -157,6 +157,10 @@ func c04History(c *Case) {
 		// token-level text that ignores typing: evaluations that abort deliberately are part of a history too
 		src = g.TokExpr(1+g.Intn(3), false)
 	}
+	if xgen.CostEstimateText(src, 130) > xgen.MaxCost*20 {
+		c.Skip("estimated engine cost beyond the bounded workload (see xgen.CostEstimate)")
+		return
+	}
 	used, err := safeCompile(src)
 	if err != nil {
 		c.Skip("rejected by Compile (the business of other properties)")
